@@ -23,11 +23,18 @@ type protoExec struct {
 	unrel  bool
 	healed bool
 	pre    string // the settled state right before an election / attach request (annotation for the oracle)
+	k      *cluster.Coord
+	rf     int
 }
 
 func (e *protoExec) close() {
+	if e.k != nil {
+		e.k.Close()
+		e.k = nil
+	}
 	if e.c != nil {
 		e.c.Close()
+		e.c = nil
 	}
 }
 
@@ -62,6 +69,9 @@ func (e *protoExec) state() string {
 // after " ~pre " - the comparison with the model ignores it (core.firstDiff), the oracle uses it to tell
 // entries a follower *kept* across its truncation from entries it *took* afterwards.
 func (e *protoExec) op(op string) string {
+	if strings.HasPrefix(op, "k.") {
+		return e.kop(op)
+	}
 	e.pre = ""
 	r := e.opInner(op)
 	if e.pre != "" && !strings.HasPrefix(r, "~") {
@@ -1020,6 +1030,9 @@ func genProtoCases(rng *rand.Rand, tier, which string) []core.Case {
 
 func protoNontrivial(ops []string, outs []string) bool {
 	for i, o := range ops {
+		if i < len(outs) && o == "k.wait" && outs[i] == "~steady" && i > 2 {
+			return true
+		}
 		if i < len(outs) && strings.HasPrefix(o, "p.elect") && strings.HasPrefix(outs[i], "leader=") && i > 2 {
 			return true
 		}
@@ -1036,16 +1049,30 @@ func (C04) Nontrivial(ops []string, outs []string) bool      { return protoNontr
 
 type C05 struct{ protoTarget }
 
-func (C05) Generate(rng *rand.Rand, tier string) []core.Case { return genProtoCases(rng, tier, "C05") }
+func (C05) Generate(rng *rand.Rand, tier string) []core.Case {
+	return append(genProtoCases(rng, tier, "C05"), genCoordCases(rng, tier, "C05")...)
+}
 func (C05) Exec(ops []string, outs []string)                 { protoExecOps(ops, outs) }
-func (C05) Oracle(ops, impl, model []string) string          { return protoOracle(ops, impl, "C05") }
+func (C05) Oracle(ops, impl, model []string) string {
+	if len(ops) > 0 && strings.HasPrefix(ops[0], "k.") {
+		return coordOracle(ops, impl, "C05")
+	}
+	return protoOracle(ops, impl, "C05")
+}
 func (C05) Nontrivial(ops []string, outs []string) bool      { return protoNontrivial(ops, outs) }
 
 type C01 struct{ protoTarget }
 
-func (C01) Generate(rng *rand.Rand, tier string) []core.Case { return genProtoCases(rng, tier, "C01") }
+func (C01) Generate(rng *rand.Rand, tier string) []core.Case {
+	return append(genProtoCases(rng, tier, "C01"), genCoordCases(rng, tier, "C01")...)
+}
 func (C01) Exec(ops []string, outs []string)                 { protoExecOps(ops, outs) }
-func (C01) Oracle(ops, impl, model []string) string          { return protoOracle(ops, impl, "C01") }
+func (C01) Oracle(ops, impl, model []string) string {
+	if len(ops) > 0 && strings.HasPrefix(ops[0], "k.") {
+		return coordOracle(ops, impl, "C01")
+	}
+	return protoOracle(ops, impl, "C01")
+}
 func (C01) Nontrivial(ops []string, outs []string) bool      { return protoNontrivial(ops, outs) }
 
 type C02 struct{ protoTarget }
